@@ -195,7 +195,7 @@ CHECKS["C11"] = dict(
                "cleared, for extension), the parent's contract/signature/master, target bytes equal to a recomputation for exactly the requested channel "
                "(<channel><connection id>/ for extension, #/ moved behind the id), expiry = request time + ttl (+-2 s) or none, and must authorize the intended "
                "channel but neither sibling nor parent; non-master / expired / foreign parents must be refused; every mask with the extend bit is refused for "
-               "SUBSCRIBE and PUBLISH. A history leg mints, extends (from several connections), uses, probes and damages keys in any order on one broker and compares every step with a per-key model (a key's rights never change through requests); a concurrency leg issues keys from 8 goroutines at once, mixed with refused requests.",
+               "SUBSCRIBE and PUBLISH. A history leg mints, extends (from several connections), uses, probes and damages keys in any order on one broker and compares every step with a per-key model (a key's rights never change through requests); a concurrency leg issues keys from 8 goroutines at once, mixed with refused requests. Extendable keys are also tried through link shortcuts (auto-subscribe of the link request, publish through the shortcut); request documents may omit type / ttl and type strings may carry non-ASCII look-alikes of the permission letters.",
     level_note="Trusted: hash.OfString (murmur) for the target hash, the 15-line bit-path recomputation, keys built field by field. A requested expiry before the key "
                "format's epoch (2010-01-01) is not representable: such a key must already be expired with the earliest representable expiry.",
     rule="rapid-generated requests; non-trivial = a key was issued from a master, or the request asks for permissions the parent lacks, or a refusal caused by a "
@@ -293,7 +293,7 @@ CHECKS["C18"] = dict(
                "a/b/, x/. After every operation both a permanent watcher and the toggling watcher must have received exactly the expected notifications "
                "(one subscribe per new subscription on or below a watched channel, one unsubscribe when it ends, per-connection order, usernames, none after "
                "cancel), and every status response must list exactly the connections the reference matcher says would receive a publish, with usernames. "
-               "A second leg saturates the 100-slot presence queue behind a non-reading watcher and checks that order is preserved. The channel alphabet contains two- and three-way groups of channels whose ssids share the per-connection counter hash.",
+               "A second leg saturates the 100-slot presence queue behind a non-reading watcher and checks that order is preserved. The channel alphabet contains two- and three-way groups of channels whose ssids share the per-connection counter hash. Status requests are also made over HTTP (POST /presence), with the channel given without its trailing slash, and with a key that lacks the presence permission (refused).",
     level_note="Trusted: paho codec, ids learned from emitter/me, the sentinel barrier through the presence queue (single FIFO goroutine) observed by a permanent "
                "watcher - which makes 'none after cancel' conclusive. Cluster survey answers no peers.",
     rule="rapid-generated histories; non-trivial = >=2 transitions, a connection going away and the toggling watcher notified at least once; distinct = distinct case value.",
